@@ -27,6 +27,7 @@ def plan(tier, seed):
             ("composite-3", 6, [("E3", {"own": 0}), ("E5", {"kind": "notification", "with_typename": True, "params_last_new": True}), ("E3", {"own": 0}), ("E5", {"kind": "request", "with_typename": True, "params_last_new": True}), "E9", "E10"]),
             ("composite-4", 8, [("E8", {"mode": "optionality"}), ("E8", {"mode": "nullable"}), ("E8", {"mode": "literal"}), ("E8", {"mode": "denull"}), ("E8", {"mode": "denull"}), "E11", "E11", "E13"]),
             ("composite-5", 2, ["E12", ("E5", {"kind": "request", "with_typename": True, "enum_result": True})]),
+            ("composite-6", 9, [("E12", {"static": False}), ("E5", {"kind": "request", "with_typename": False}), ("E5", {"kind": "request", "with_typename": False, "unicode_method": True}), ("E5", {"kind": "notification", "with_typename": False}), ("E5", {"kind": "notification", "with_typename": False, "unicode_method": True}), "E4", ("E4", {"hostile": True}), "E4", ("E8", {"mode": "optionality"})]),
             ("composite-2", 10, ["E1", "E2", "E2", ("E5", {"with_typename": True, "kind": "request"}), "E7", "E6", ("E5", {"with_typename": False, "kind": "request", "dollar": True}), ("E3", {"deep": True})]),
         ]
     else:
@@ -41,6 +42,8 @@ def plan(tier, seed):
             forced.append(["E1", "E2", "E3", "E4", "E6", "E7", "E8", ("E3", {"deep": True}), ("E5", {"with_typename": False, "dollar": True}), ("E6", {"both": True}), "E9", "E10", ("E3", {"own": 0}), "E11", ("E8", {"mode": "optionality"}), ("E8", {"mode": "nullable"}), ("E5", {"kind": "request", "enum_result": True}), "E13", ("E8", {"mode": "denull"})][k % 19])
             if k % 12 == 11:
                 forced = ["E12"]
+            if k % 12 == 5:
+                forced += [("E12", {"static": False}), ("E5", {"with_typename": False, "kind": "request"}), ("E5", {"with_typename": False, "kind": "request"}), ("E4", {"hostile": True})]
             if k % 5 == 3:
                 forced += [("E3", {"own": 0}), ("E5", {"kind": "notification", "params_last_new": True})]
             out.append(("composite-%d" % k, [2, 4, 8, 12][k % 4], forced))
